@@ -141,4 +141,10 @@ def render (os : List (Tid × Obs)) : List String :=
     | .ev e => s!"T {t} A {e}"
     | .ret r => s!"T {t} RET {r}"
 
+/-- The atomic events of a run, with the acting thread. -/
+def events (os : List (Tid × Obs)) : List (Tid × Ev) :=
+  os.filterMap fun (t, o) => match o with
+    | .ev e => some (t, e)
+    | _ => none
+
 end CdsVerif.Algo.ReentrantSpin
